@@ -59,7 +59,7 @@ CLAIMED["C11"] = dict(
     ref="§3 C11")
 CLAIMED["C19"] = dict(
     technique="static analysis: def-use / expression extraction for the destination and counters, keep-xor-send branch analysis (reachability from each edge of the dest == my_shard test), avoid-reachability pairing for close-all, `?`-propagation check of every fallible await, shape of result assembly",
-    text="Decides the structural part of resharding: the destination is exactly shard_picker(ctx, RecordId::from(counter), &record) with the counter advancing once per record; a record is either kept (no send reachable) or sent to send_channels[dest] with the send awaited and `?`-propagated and the per-destination record id advanced, never both; all channels are closed when the input ends; stream and transport errors are propagated; records are stored by source shard and flattened in index order; the send loop is sequential. Multiset equality and timing behaviour are not decided.",
+    text="Decides the structural part of resharding: the destination is exactly shard_picker(ctx, RecordId::from(counter), &record) with the counter advancing once per record; a record is either kept (no send reachable) or sent to send_channels[dest] with the send awaited and `?`-propagated and the per-destination record id advanced, never both; all channels are closed when the input ends and only then (never on a path on which the input or a send failed, which the peers would take for a clean end); stream and transport errors are propagated; records are stored by source shard and flattened in index order; the send loop is sequential. Multiset equality and timing behaviour are not decided.",
     ref="§3 C19")
 
 CLAIMED["C10"] = dict(
